@@ -909,11 +909,13 @@ class ContentElement(TTMLElement):
 
               self.implicit_end = None
 
-          # skip child if it has no temporal extent
+          # skip child if it has no temporal extent, unless the parent is a ruby container, which accepts only
+          # complete sequences of children (such a child is kept and is simply never active)
 
           if not issubclass(child_element.ttml_class, SetElement) and \
             (child_element.desired_begin is None or child_element.desired_end is None or \
-              child_element.desired_begin != child_element.desired_end):
+              child_element.desired_begin != child_element.desired_end or \
+              issubclass(self.ttml_class, (RubyElement, RtcElement))):
 
             self.children.append(child_element.model_element)
 
